@@ -1515,25 +1515,70 @@ impl<C: CellType> Program<C> {
     }
 }
 
+/// Collect all variables that the given instructions may write to.
+fn written_vars<C: CellType>(insts: &[Instr<C>], vars: &mut HashSet<isize>) {
+    for inst in insts {
+        match inst {
+            Instr::Output { .. } => {}
+            Instr::Input { dst } => {
+                vars.insert(*dst);
+            }
+            Instr::Calc { calcs } => {
+                for (var, _) in calcs {
+                    vars.insert(*var);
+                }
+            }
+            Instr::Loop { block, .. } | Instr::If { block, .. } => {
+                written_vars(&block.insts, vars);
+            }
+        }
+    }
+}
+
+impl<C: CellType> OptAnalysis<C> {
+    /// Recompute the clobbered variables of all blocks nested in `insts` from the
+    /// instructions that have been emitted for them. While rebuilding, a variable
+    /// that a block writes is not counted as clobbered if the block only ever stores
+    /// the value the variable already has. Dead store elimination may later remove
+    /// such a store, after which the variable no longer keeps its value. What is
+    /// handed to the next iteration must therefore name every written variable.
+    fn recompute_clobbered(&mut self, insts: &[Instr<C>]) {
+        let mut sub_blocks = self.sub_blocks.iter_mut();
+        for inst in insts {
+            if let Instr::Loop { block, .. } | Instr::If { block, .. } = inst {
+                if let Some(sub) = sub_blocks.next() {
+                    if !sub.has_shift {
+                        sub.clobbered.clear();
+                        written_vars(&block.insts, &mut sub.clobbered);
+                    }
+                    sub.recompute_clobbered(&block.insts);
+                } else {
+                    break;
+                }
+            }
+        }
+    }
+}
+
 impl<C: CellType> Program<C> {
     /// Perform one iteration of optimization and return the new program.
     fn optimize_once(&self, prev_anal: OptAnalysis<C>) -> (Self, OptAnalysis<C>) {
         let mut state = OptRebuild::new(0, None, OptParent::Zero, Some(prev_anal));
         state.rebuild_block(self);
         // NB: We assume that nothing runs after the end of the program.
-        (
-            Program {
-                shift: 0,
-                insts: state.insts,
-            },
-            OptAnalysis {
-                loop_anal: OptLoop::at_most_once(true),
-                has_shift: false,
-                reads: state.reads,
-                clobbered: HashSet::new(),
-                sub_blocks: state.sub_anal,
-            },
-        )
+        let prog = Program {
+            shift: 0,
+            insts: state.insts,
+        };
+        let mut anal = OptAnalysis {
+            loop_anal: OptLoop::at_most_once(true),
+            has_shift: false,
+            reads: state.reads,
+            clobbered: HashSet::new(),
+            sub_blocks: state.sub_anal,
+        };
+        anal.recompute_clobbered(&prog.insts);
+        (prog, anal)
     }
 
     /// Remove computations that will be overwritten in any case.
